@@ -28,13 +28,16 @@
       Zero only up to rounding in this model ([C08_float_zero_rejected]): bhattacharyya (sum of
       sqrt(x*x) is 1 only approximately), chord and cosine (rnd(sqrt s)^2 is s only approximately),
       jaccard (divisor s + s - s is a rounded subtraction, not provably non-zero:
-      [C08_float_jaccard_model_limit]), jensen (needs rnd(2t)/2 = t).  hassanat: accepted on
+      [C08_float_jaccard_model_limit]), jensen (needs rnd(2t)/2 = t); each comes with an admissible
+      rounding (rnd 1 = 1) and a vector of the domain whose self-distance is not 0
+      ([C08_float_bhattacharyya_refuted] -- already the identity rounding --, [C08_float_chord_model_limit],
+      [C08_float_cosine_model_limit], [C08_float_jensen_model_limit]).  hassanat: accepted on
       non-negative user vectors only (undefined for some rounding on the real domain:
       C08_robust_hassanat_model_limit).  Negative control: gaussian and statistic (not
       dissimilarities) are rejected. *)
 From Coq Require Import Reals QArith String List Bool.
 From OPF Require Import Spec.MetricSpec Model.MetricIR Gen.Metrics_gen Model.MetricRnd Model.MetricSym
-     Proofs.FloatSym Proofs.FloatZero Proofs.FloatTable.
+     Proofs.FloatSym Proofs.FloatZero Proofs.FloatTable Proofs.FloatZeroNeg.
 Import ListNotations.
 Open Scope string_scope.
 Open Scope R_scope.
@@ -191,6 +194,26 @@ Proof. exact float_zero_rejected. Qed.
 Theorem C08_float_jaccard_model_limit :
   exists rnd, rounding rnd /\ all_pos [1] /\ metric_rnd rnd ir_jaccard [1] [1] <> Some 0.
 Proof. exact jaccard_zero_model_limit. Qed.
+
+(* the rejections are not an incompleteness of the checker: admissible roundings with rnd 1 = 1 under
+   which the self-distance is defined and not 0 (bhattacharyya: already in exact arithmetic, on the
+   probability vector [1], the decorated body computes -ln (1 + EPSILON)) *)
+Theorem C08_float_bhattacharyya_refuted :
+  rounding (fun a : R => a) /\ (fun a : R => a) 1 = 1 /\ prob [1]
+  /\ metric_rnd (fun a : R => a) ir_bhattacharyya [1] [1] <> Some 0.
+Proof. exact bhattacharyya_zero_refuted. Qed.
+
+Theorem C08_float_jensen_model_limit :
+  exists rnd, rounding rnd /\ rnd 1 = 1 /\ all_pos [1] /\ metric_rnd rnd ir_jensen [1] [1] <> Some 0.
+Proof. exact jensen_zero_model_limit. Qed.
+
+Theorem C08_float_cosine_model_limit :
+  exists rnd, rounding rnd /\ rnd 1 = 1 /\ all_pos [1] /\ metric_rnd rnd ir_cosine [1] [1] <> Some 0.
+Proof. exact cosine_zero_model_limit. Qed.
+
+Theorem C08_float_chord_model_limit :
+  exists rnd, rounding rnd /\ rnd 1 = 1 /\ all_pos [1] /\ metric_rnd rnd ir_chord [1] [1] <> Some 0.
+Proof. exact chord_zero_model_limit. Qed.
 
 (* ---------------- non-vacuity ---------------- *)
 (* the identity and the plateau rounding [rndS] are admissible and odd; manhattan([1;2],[3;5]) = 5 *)
